@@ -452,6 +452,8 @@ def _color_refine(
     n_atoms = graph.n_atoms
 
     atom_hash = next(sm_generator)
+    if n_atoms == 0:
+        return atom_hash
     n_atom_classes = np.unique(atom_hash).shape[0]
 
     counter = (
